@@ -6,6 +6,7 @@ import (
 	"encoding/json"
 	"fmt"
 	"net/http"
+	"net/http/httptest"
 	"net/url"
 	"os"
 	"os/exec"
@@ -458,9 +459,16 @@ type hostile struct {
 	body   string
 	ctype  string
 	delay  time.Duration // the peer is slow: it answers after this long, or when the client has gone
+	// paths: answers for single paths that differ from the general one (a peer that behaves at one endpoint and
+	// misbehaves at the next)
+	paths map[string]*hostile
 }
 
 func (h *hostile) ServeHTTP(w http.ResponseWriter, r *http.Request) {
+	if o := h.paths[r.URL.Path]; o != nil {
+		o.ServeHTTP(w, r)
+		return
+	}
 	if h.delay > 0 {
 		t := time.NewTimer(h.delay)
 		select {
@@ -508,6 +516,20 @@ func (c *c09) clientSide(base int, s *session) {
 	keyPEM := []byte(nil)
 	_ = keyPEM
 
+	// what a well-behaved provider at evil.sim would answer: a key set and a token response with an ID token signed by it
+	idKey := world.FixtureKey("rsa", 0)
+	idPub := idKey.Public()
+	idPub.KeyID, idPub.Use, idPub.Algorithm = "k1", "sig", "RS256"
+	pubJSON, _ := idPub.MarshalJSON()
+	jwksDoc := `{"keys":[` + string(pubJSON) + `]}`
+	goodTokenAnswer := func() string {
+		now := time.Now()
+		pl, _ := json.Marshal(map[string]any{"iss": issuer, "sub": "u1", "aud": []string{"web"}, "azp": "web", "exp": now.Add(time.Hour).Unix(), "iat": now.Unix()})
+		return `{"access_token":"at","token_type":"Bearer","expires_in":300,"id_token":"` + signRaw(pl, jose.RS256, idKey.Key, "k1") + `"}`
+	}
+	cbHandler := rp.CodeExchangeHandler(rp.UserinfoCallback(func(rw http.ResponseWriter, r *http.Request, tokens *oidc.Tokens[*oidc.IDTokenClaims], state string, _ rp.RelyingParty, info *oidc.UserInfo) {
+		fmt.Fprintf(rw, "welcome %s", info.Subject)
+	}), party)
 	helpers := []struct {
 		name string
 		call func() error
@@ -558,6 +580,24 @@ func (c *c09) clientSide(base int, s *session) {
 			_, err := rp.DeviceAccessToken(ctx, "device-code", time.Second, party)
 			return err
 		}},
+		// the relying party's HTTP handlers, wired as the example application wires them: the code exchange handler
+		// with the userinfo callback. First every answer of the peer is the hostile one (token endpoint included), then
+		// the peer answers the token request and the key request properly and misbehaves at the userinfo endpoint.
+		{"rp.CodeExchangeHandler(UserinfoCallback)/hostile-token-endpoint", func() error {
+			rec := httptest.NewRecorder()
+			cbHandler.ServeHTTP(rec, httptest.NewRequest("GET", "https://web.sim/callback?code=c&state=s", nil).WithContext(ctx))
+			return fmt.Errorf("status %d", rec.Code)
+		}},
+		{"rp.CodeExchangeHandler(UserinfoCallback)/hostile-userinfo-endpoint", func() error {
+			h.paths = map[string]*hostile{"/token": {status: 200, body: goodTokenAnswer(), ctype: "application/json"}, "/keys": {status: 200, body: jwksDoc, ctype: "application/json"}}
+			defer func() { h.paths = nil }()
+			rec := httptest.NewRecorder()
+			cbHandler.ServeHTTP(rec, httptest.NewRequest("GET", "https://web.sim/callback?code=c&state=s", nil).WithContext(ctx))
+			if rec.Code == 200 {
+				c.o.Probe("rp-handler-reached-the-userinfo-callback")
+			}
+			return fmt.Errorf("status %d", rec.Code)
+		}},
 		{"oauth2 via rp (auto-detect)", func() error {
 			cfg := *party.OAuthConfig()
 			cfg.Endpoint.AuthStyle = oauth2.AuthStyleAutoDetect
@@ -600,9 +640,9 @@ func (c *c09) clientSide(base int, s *session) {
 		answer   hostile
 		patience time.Duration
 	}{
-		{"late pending answer, patient caller", hostile{400, `{"error":"authorization_pending"}`, "application/json", 3 * time.Second}, 40 * time.Second},
-		{"answer after the caller's deadline", hostile{200, goodDisc, "application/json", 30 * time.Second}, 5 * time.Second},
-		{"late slow_down answer, patient caller", hostile{400, `{"error":"slow_down"}`, "application/json", 2 * time.Second}, 25 * time.Second},
+		{"late pending answer, patient caller", hostile{400, `{"error":"authorization_pending"}`, "application/json", 3 * time.Second, nil}, 40 * time.Second},
+		{"answer after the caller's deadline", hostile{200, goodDisc, "application/json", 30 * time.Second, nil}, 5 * time.Second},
+		{"late slow_down answer, patient caller", hostile{400, `{"error":"slow_down"}`, "application/json", 2 * time.Second, nil}, 25 * time.Second},
 	}
 	for _, hp := range helpers {
 		for si, sl := range slow {
@@ -796,15 +836,20 @@ func RunC09(t *testing.T, spec kernel.Spec) *kernel.Outcome {
 func hostileAnswers(goodDisc, issuer, idToken string) []hostile {
 	var answers []hostile
 	for _, pc := range payloadCatalogue {
-		answers = append(answers, hostile{200, pc.doc, "application/json", 0}, hostile{400, pc.doc, "application/json", 0})
+		answers = append(answers, hostile{200, pc.doc, "application/json", 0, nil}, hostile{400, pc.doc, "application/json", 0, nil})
 	}
-	answers = append(answers, hostile{200, "", "", 0}, hostile{204, "", "", 0}, hostile{500, "boom", "text/plain", 0}, hostile{302, "", "", 0}, hostile{401, `{"error":"invalid_client"}`, "application/json", 0},
-		hostile{503, "null", "application/json", 0}, hostile{500, " null ", "application/json", 0},
-		hostile{200, goodDisc[:len(goodDisc)/2], "application/json", 0}, hostile{200, strings.Replace(goodDisc, issuer, "https://other.sim", 1), "application/json", 0},
-		hostile{200, `{"access_token":"a","token_type":"Bearer","id_token":"` + idToken + `"}`, "application/json", 0},
-		hostile{200, `{"access_token":"a","token_type":"Bearer","id_token":"a.b.c","expires_in":-5}`, "application/json", 0},
-		hostile{200, `{"access_token":"a","token_type":"Bearer","id_token":"` + b64(`{"alg":"RS256"}`) + "." + b64(`null`) + ".c" + `"}`, "application/json", 0},
-		hostile{200, `{"sub":"someone-else"}`, "application/json", 0}, hostile{200, strings.Repeat("[", 10000), "application/json", 0})
+	answers = append(answers, hostile{200, "", "", 0, nil}, hostile{204, "", "", 0, nil}, hostile{500, "boom", "text/plain", 0, nil}, hostile{302, "", "", 0, nil}, hostile{401, `{"error":"invalid_client"}`, "application/json", 0, nil},
+		hostile{503, "null", "application/json", 0, nil}, hostile{500, " null ", "application/json", 0, nil},
+		hostile{200, goodDisc[:len(goodDisc)/2], "application/json", 0, nil}, hostile{200, strings.Replace(goodDisc, issuer, "https://other.sim", 1), "application/json", 0, nil},
+		hostile{200, `{"access_token":"a","token_type":"Bearer","id_token":"` + idToken + `"}`, "application/json", 0, nil},
+		hostile{200, `{"access_token":"a","token_type":"Bearer","id_token":"a.b.c","expires_in":-5}`, "application/json", 0, nil},
+		hostile{200, `{"access_token":"a","token_type":"Bearer","id_token":"` + b64(`{"alg":"RS256"}`) + "." + b64(`null`) + ".c" + `"}`, "application/json", 0, nil},
+		hostile{200, `{"sub":"someone-else"}`, "application/json", 0, nil}, hostile{200, strings.Repeat("[", 10000), "application/json", 0, nil},
+		// a token answer that is well-formed and has no ID token, or one of another JSON type
+		hostile{200, `{"access_token":"a","token_type":"Bearer","expires_in":300}`, "application/json", 0, nil},
+		hostile{200, `{"access_token":"a","token_type":"Bearer","id_token":5}`, "application/json", 0, nil},
+		hostile{200, `{"access_token":"a","token_type":"Bearer","id_token":null,"refresh_token":"r"}`, "application/json", 0, nil},
+		hostile{200, `{"sub":"u1"}`, "application/json", 0, nil}, hostile{200, `{"sub":"u1","email_verified":"yes","address":"x","updated_at":"now"}`, "application/json", 0, nil})
 	return answers
 }
 
